@@ -467,6 +467,15 @@ BIND_NOTHING = {
 }
 
 
+# the injector's own name is a package-level name of the generated file: an import the generator adds (for a type of a
+# package the source does not import) and the variables it declares must not take it (repaired)
+INJECTOR_NAMES = {
+    "config/c.go": 'package config\n\ntype Settings struct{ N int }\ntype Other struct{ N int }\n',
+    "svc/s.go": 'package svc\n\nimport "vscratch/injector_names/config"\n\ntype App struct{ N int }\n\nfunc NewSettings() *config.Settings { return &config.Settings{N: 3} }\nfunc NewOther() *config.Other       { return &config.Other{N: 0} }\nfunc NewApp(s *config.Settings, o *config.Other) (*App, error) { return &App{N: s.N + o.N}, nil }\n',
+    "k.go": 'package main\n\nimport (\n\t"context"\n\n\t"github.com/mazrean/kessoku"\n\t"vscratch/injector_names/svc"\n)\n\nvar _ = kessoku.Inject[*svc.App]("config", kessoku.Async(kessoku.Provide(svc.NewSettings)), kessoku.Async(kessoku.Provide(svc.NewOther)), kessoku.Provide(svc.NewApp))\nvar _ = kessoku.Inject[*svc.App]("app", kessoku.Async(kessoku.Provide(svc.NewSettings)), kessoku.Async(kessoku.Provide(svc.NewOther)), kessoku.Provide(svc.NewApp))\n\nfunc main() {\n\ta, err := config(context.Background())\n\tb, err2 := app(context.Background())\n\tif err != nil || err2 != nil || a.N != 3 || b.N != 3 {\n\t\tpanic("wrong result")\n\t}\n}\n',
+}
+
+
 def write_pkg(mod, name, files):
     d = os.path.join(mod, name)
     os.makedirs(d, exist_ok=True)
@@ -544,6 +553,7 @@ def _stage(seed, tier, key="N-x"):
     pkgs.append(("nested_struct_order", NESTED_STRUCT, ["k.go"], None, dict(kind="nested Struct expansions in both declaration orders", run=True, expect_accept=True,
                                                                                  expect_funcs={"k_band.go": ["InitA", "InitB"]})))
     pkgs.append(("bind_nothing", BIND_NOTHING, ["k.go"], None, dict(kind="a Bind that binds nothing", expect_not_generated=["InitApp"])))
+    pkgs.append(("injector_names", INJECTOR_NAMES, ["k.go"], None, dict(kind="naming: injector names against generated imports and variables", run=True)))
     pkgs.append(("xset", XSET, ["k.go"], "KF-C10-1", dict(kind="known finding reproducer (Set of another package)", signature="no vet signature: the file compiles",
                                                        expect_params={"k_band.go": {"InitB": []}}, known_params={"k_band.go": {"InitB": ["*prov.A"]}})))
     pkgs.append(("known_KF_C04_3", CH_PACKAGE, ["k.go"], "KF-C04-3", dict(kind="known finding reproducer", signature=r"ch\.Client is not a type")))
